@@ -387,6 +387,17 @@ def c04(tier, seed):
                     exp = '--\n' + ('old\nO\nold\nE\n' if app else 'O\nE\n')
                     out.append({'line': pre + './oe ' + red + '; echo --; cat o e', 'files': F, 'expect_stdout': exp, 'area': 'redirect:two-targets'})
                     out.append({'line': pre + './oe ' + red + ' | cat; echo --; cat o e', 'files': F, 'expect_stdout': exp, 'area': 'redirect:two-targets:in-pipeline'})
+    # builtins (alias, read): the same rules as for external programs
+    out += [
+        {'line': 'alias nosuch-zz 2>&1', 'files': F, 'expect_stdout_contains': 'nosuch-zz', 'area': 'redirect:builtin:dup-alone'},
+        {'line': "alias zq=1; alias zq 2> f 1>&2; echo --; cat f", 'files': F, 'expect_stdout': "--\nalias zq='1'\n", 'area': 'redirect:builtin:dup-order'},
+        {'line': "alias zq=1; alias zq 1>&2 2> f; echo --; cat f", 'files': F, 'expect_stdout': '--\n', 'area': 'redirect:builtin:dup-order'},
+        {'line': "alias zq=1; alias zq > /nonexistent-dir-xyz/f; echo rc=$?", 'files': F, 'expect_stdout_last_line_not': 'rc=0', 'expect_no_stdout_line': "alias zq='1'", 'area': 'redirect:builtin:unopenable-target'},
+        {'line': 'echo filetext > g; read x < g; echo "[$x]"', 'files': F, 'expect_stdout': '[filetext]\n', 'area': 'redirect:builtin:stdin', 'timeout': 5},
+        {'line': "alias zq=1; alias zq > o 2> e; echo --; cat o; cat e", 'files': F, 'expect_stdout': "--\nalias zq='1'\n", 'area': 'redirect:builtin:both'},
+        {'line': "alias zq=1; alias zq >> o; alias zq >> o; cat o", 'files': F, 'expect_stdout': "alias zq='1'\nalias zq='1'\n", 'area': 'redirect:builtin:append'},
+        {'line': "alias zq=1; alias zq | cat; alias nosuch-zz 2>&1 | cat", 'files': F, 'expect_stdout_contains': 'nosuch-zz', 'expect_stdout_prefix': "alias zq='1'\n", 'area': 'redirect:builtin:in-pipeline'},
+    ]
     out.append({'line': 'alias nosuch-zz zq=1 2> e > o; echo --; cat o; cat e', 'files': F, 'expect_stdout_prefix': '--\n', 'expect_stdout_contains': 'alias', 'area': 'redirect:builtin-two-targets'})
     return out
 
